@@ -97,7 +97,7 @@ theorem presealMelmint_hhn (env : Env) (s s' : State) (h : presealMelmint env s 
     obtain ⟨s3, h3, h⟩ := Outcome.bind_eq_ok h
     exact ((((createBuiltins_hhn s).trans (processSwaps_hhn _ _ h1)).trans
       (processDeposits_hhn _ _ _ h2)).trans (processWithdrawals_hhn _ _ _ h3)).trans
-      (processPegging_hhn _ _ h)
+      ((createBuiltins_hhn s3).trans (processPegging_hhn _ _ h))
 
 theorem applyTip909_hhn (s s' : State) (h : applyTip909 s = .ok s') : SameHHN s s' := by
   unfold applyTip909 at h
